@@ -64,6 +64,7 @@ type x03Round struct {
 	EndBy   string  `json:"endby"`   // "cli" | "srv": who ends a confirmed transfer
 	EndText string  `json:"endtext"` // "#EXIT:" | "#FAIL:" | "#fail:"
 	BadCfg  bool    `json:"badcfg"`  // the server's CFG is undecodable
+	Probe   bool    `json:"probe"`   // in-band round with a port: the client dials once and watches the connection
 	Port    bool    `json:"port"`    // in-band round whose trigger carries a tunnel port (nobody dials)
 	Second  string  `json:"second"`  // "" | "race" | "after" | "late": a second pair of connections
 	Cli     [][]int `json:"cli"`     // in-band chunks of the client side
@@ -78,6 +79,7 @@ type x03Plan struct {
 	Rounds []x03Round `json:"rounds"`
 	SrvErr string     `json:"srverr"` // "eof": the connector's connection reports its own Close as io.EOF; "closed": net.ErrClosed
 	Close  string     `json:"close"`  // "cli" | "srv" | "both": who closes first after a tunnel transfer
+	CloseWaitMs int   `json:"closewait_ms"`
 	Window bool       `json:"window"` // steer an in-band client chunk into the window between hs.act and tunnelConnected.Store
 }
 
@@ -451,4 +453,967 @@ func x03OpenFDs() int {
 	return len(ents)
 }
 
-var _ = rand.Int
+// ---------------------------------------------------------------- one session = one relay instance, several transfers
+
+type x03Pair struct {
+	pr     int
+	round  int
+	conn   *net.TCPConn
+	sc     *x03SConn
+	tok    *x03Tok
+	hello4 chan struct{} // closed when the relay's answer to the greeting arrived
+	gone   chan struct{} // closed when the client's read side saw EOF / an error
+	goneBy string
+	self   atomic.Bool // the harness itself closed the client's connection: a read error is not the relay's doing
+}
+
+type x03Sess struct {
+	id      int
+	tr      *vTrace
+	plan    *x03Plan
+	rmu     sync.Mutex
+	rng     *rand.Rand
+	base    int64
+	relay   *TrzszRelay
+	cin     *x03Reader
+	sout    *x03Reader
+	toS     *x03Tok
+	toC     *x03Tok
+	flushes atomic.Int32
+	gateMu  sync.Mutex
+	gate    atomic.Bool
+	pmu     sync.Mutex
+	ports   map[int]int
+	pairs   []*x03Pair
+	dialQ   []*x03Pair
+	fedIn   []int
+	notes   []string
+	stuck   atomic.Bool
+	stuckAt atomic.Value
+	winArm  atomic.Bool
+	winGo   chan struct{}
+	winBack chan struct{}
+	census  []map[string]any
+	late    *x03Pair
+}
+
+func (s *x03Sess) rnd(n int) int {
+	s.rmu.Lock()
+	defer s.rmu.Unlock()
+	return s.rng.Intn(n)
+}
+
+func (s *x03Sess) ev(m map[string]any, do func()) {
+	m["run"] = s.id
+	s.tr.Emit(m, do)
+}
+
+func (s *x03Sess) note(t string) {
+	s.pmu.Lock()
+	s.notes = append(s.notes, t)
+	s.pmu.Unlock()
+}
+
+func (s *x03Sess) setPort(r, port int) {
+	s.pmu.Lock()
+	s.ports[r] = port
+	s.pmu.Unlock()
+}
+
+func (s *x03Sess) port(r int) int {
+	s.pmu.Lock()
+	defer s.pmu.Unlock()
+	return s.ports[r]
+}
+
+func (s *x03Sess) fail(where string) bool {
+	if s.stuck.CompareAndSwap(false, true) {
+		s.stuckAt.Store(where)
+	}
+	return false
+}
+
+// wait polls cond (generous bound: the machine may be heavily loaded); a time-out marks the session stuck
+func (s *x03Sess) wait(where string, cond func() bool) bool {
+	deadline := time.Now().Add(20 * time.Second)
+	for !cond() {
+		if s.stuck.Load() {
+			return false
+		}
+		if time.Now().After(deadline) {
+			return s.fail(where)
+		}
+		time.Sleep(100 * time.Microsecond)
+	}
+	return true
+}
+
+func (s *x03Sess) jitter() {
+	switch s.rnd(6) {
+	case 0:
+		time.Sleep(time.Duration(s.rnd(400)) * time.Microsecond)
+	case 1:
+		time.Sleep(time.Duration(s.rnd(2000)) * time.Microsecond)
+	case 2:
+		runtime.Gosched()
+	}
+}
+
+func x03Has(c []int, ks ...int) (int, bool) {
+	for _, t := range c {
+		for _, k := range ks {
+			if t < 0 && x03K(t) == k {
+				return t, true
+			}
+		}
+	}
+	return 0, false
+}
+
+// the connector handed to the relay: called by handleTunnelConn after it read the client's greeting
+func (s *x03Sess) connector(port int) net.Conn {
+	s.pmu.Lock()
+	var p *x03Pair
+	for len(s.dialQ) > 0 {
+		q := s.dialQ[0]
+		s.dialQ = s.dialQ[1:]
+		select {
+		case <-q.gone:
+			continue
+		default:
+		}
+		p = q
+		break
+	}
+	s.pmu.Unlock()
+	if p == nil {
+		s.note("connector called without a pending dial")
+		return nil
+	}
+	s.ev(map[string]any{"e": "connect", "pr": p.pr, "port": port}, nil)
+	return p.sc
+}
+
+// dial connects a new client to the relay's listener and sends the greeting
+func (s *x03Sess) dial(round int, hold chan struct{}, queue bool) *x03Pair {
+	rport := s.port(round)
+	uidSeen := fmt.Sprintf("%013d", s.base+int64(100*round)+20) // the relay (tmux-aware detector) rewrites ...00 to ...20
+	hello1, hello4 := getHelloConstant(uidSeen, rport)
+	hello2, hello3 := getHelloConstant(uidSeen, 20000+round)
+	s.pmu.Lock()
+	p := &x03Pair{pr: len(s.pairs) + 1, round: round, hello4: make(chan struct{}), gone: make(chan struct{})}
+	s.pairs = append(s.pairs, p)
+	s.pmu.Unlock()
+	p.tok = &x03Tok{s: s, seen: map[int]bool{}, emit: func(toks []int) {
+		s.ev(map[string]any{"e": "tdeliver", "pr": p.pr, "to": "c", "u": toks}, nil)
+	}}
+	sc := &x03SConn{s: s, pr: p.pr, rd: make(chan x03Chunk), closeCh: make(chan struct{}), peerCh: make(chan struct{}),
+		hold: hold, hello2: hello2, hello3: hello3, errEOF: s.plan.SrvErr != "closed"}
+	sc.tok = &x03Tok{s: s, seen: map[int]bool{}, emit: func(toks []int) {
+		s.ev(map[string]any{"e": "tdeliver", "pr": p.pr, "to": "s", "u": toks}, nil)
+	}}
+	p.sc = sc
+	if queue {
+		s.pmu.Lock()
+		s.dialQ = append(s.dialQ, p)
+		s.pmu.Unlock()
+	}
+	c, err := net.DialTimeout("tcp", fmt.Sprintf("127.0.0.1:%d", rport), 10*time.Second)
+	if err != nil {
+		s.ev(map[string]any{"e": "dialfail", "pr": p.pr}, nil)
+		p.goneBy = "dialfail"
+		close(p.gone)
+		return p
+	}
+	p.conn = c.(*net.TCPConn)
+	_ = p.conn.SetNoDelay(true)
+	s.ev(map[string]any{"e": "dial", "pr": p.pr}, nil)
+	if _, err := p.conn.Write([]byte(hello1)); err != nil {
+		s.note("hello1 write: " + err.Error())
+	}
+	go func() {
+		buf := make([]byte, len(hello4))
+		if _, err := io.ReadFull(p.conn, buf); err != nil || string(buf) != hello4 {
+			p.goneBy = "nogreeting"
+			if !p.self.Load() {
+				s.ev(map[string]any{"e": "rclosed", "pr": p.pr, "side": "c"}, nil)
+			}
+			close(p.gone)
+			return
+		}
+		s.ev(map[string]any{"e": "hello4", "pr": p.pr}, nil)
+		close(p.hello4)
+		rb := make([]byte, 32*1024)
+		for {
+			n, err := p.conn.Read(rb)
+			if n > 0 {
+				_, _ = p.tok.Write(rb[:n])
+			}
+			if err != nil {
+				p.goneBy = err.Error()
+				if !p.self.Load() {
+					s.ev(map[string]any{"e": "rclosed", "pr": p.pr, "side": "c"}, nil)
+				}
+				close(p.gone)
+				return
+			}
+		}
+	}()
+	return p
+}
+
+func x03Closed(ch chan struct{}) bool {
+	select {
+	case <-ch:
+		return true
+	default:
+		return false
+	}
+}
+
+func (s *x03Sess) atRest() bool {
+	r := s.relay
+	return r.relayStatus.Load() == kRelayStandBy && r.tunnelRelay.Load() == nil && !r.tunnelConnected.Load() && r.tunnelListener.Load() == nil
+}
+
+// settle: everything the relay accepted has come out (internal channels empty, no new event for a while)
+func (s *x03Sess) settle(tunnels []*tunnelRelay) {
+	empty := func() bool {
+		r := s.relay
+		if len(r.osStdinChan) > 0 || len(r.osStdoutChan) > 0 || len(r.bypassTmuxChan) > 0 || len(r.stdinBuffer.bufCh) > 0 || len(r.stdoutBuffer.bufCh) > 0 {
+			return false
+		}
+		for _, t := range tunnels {
+			if t != nil && (len(t.clientBufChan) > 0 || len(t.serverBufChan) > 0) {
+				return false
+			}
+		}
+		return true
+	}
+	deadline := time.Now().Add(10 * time.Second)
+	okRounds := 0
+	for okRounds < 2 && time.Now().Before(deadline) {
+		n := s.tr.Len()
+		time.Sleep(15 * time.Millisecond)
+		if empty() && s.tr.Len() == n {
+			okRounds++
+		} else {
+			okRounds = 0
+		}
+	}
+}
+
+func (s *x03Sess) hook(point string, args ...int) {
+	a := make([]int, len(args))
+	copy(a, args)
+	if len(a) == 0 {
+		a = []int{-1}
+	}
+	s.ev(map[string]any{"e": "hook", "p": point, "a": a}, nil)
+	if point == "relay.flush.done" {
+		s.flushes.Add(1)
+	}
+	if point == "relay.hs.act" && s.winArm.CompareAndSwap(true, false) {
+		// the window: recvAction has returned, tunnelConnected is not stored yet
+		close(s.winGo)
+		select {
+		case <-s.winBack:
+		case <-time.After(5 * time.Second):
+		}
+		return
+	}
+	switch s.rnd(6) {
+	case 0:
+		time.Sleep(time.Duration(s.rnd(300)) * time.Microsecond)
+	case 1:
+		time.Sleep(time.Duration(s.rnd(3)) * time.Millisecond)
+	case 2, 3:
+		for i := s.rnd(4); i > 0; i-- {
+			runtime.Gosched()
+		}
+	}
+}
+
+func (s *x03Sess) feedIn(side string, c []int) {
+	rd := s.cin
+	if side == "s" {
+		rd = s.sout
+	}
+	rd.ch <- x03Chunk{s.render(c), c}
+}
+
+// noise chunks of a round with a tunnel port wait while the gate is closed (environment assumption ~Window)
+func (s *x03Sess) feedNoise(side string, c []int) {
+	for {
+		s.gateMu.Lock()
+		if !s.gate.Load() {
+			s.feedIn(side, c)
+			if side == "c" {
+				s.fedIn = append(s.fedIn, c...)
+			}
+			s.gateMu.Unlock()
+			return
+		}
+		s.gateMu.Unlock()
+		if s.stuck.Load() {
+			return
+		}
+		time.Sleep(200 * time.Microsecond)
+	}
+}
+
+func (s *x03Sess) runRound(r int) bool {
+	rd := &s.plan.Rounds[r-1]
+	relay := s.relay
+	waitFlush := func() bool {
+		return s.wait(fmt.Sprintf("round %d: flush", r), func() bool { return int(s.flushes.Load()) >= r })
+	}
+	var wg sync.WaitGroup
+	tunnel := rd.Kind == "tunnel"
+	// ---- in-band server side
+	wg.Add(1)
+	go func() {
+		defer wg.Done()
+		for _, c := range rd.Srv {
+			if _, ok := x03Has(c, x03TRIGT); ok {
+				// close the gate, wait until every in-band client token fed so far has come out, then feed the trigger
+				s.gateMu.Lock()
+				s.gate.Store(true)
+				fed := append([]int(nil), s.fedIn...)
+				s.gateMu.Unlock()
+				if !s.wait("in-band client tokens before the trigger", func() bool {
+					for _, t := range fed {
+						if !s.toS.has(t) {
+							return false
+						}
+					}
+					return true
+				}) {
+					return
+				}
+				s.feedIn("s", c)
+				go func() {
+					for !s.stuck.Load() && relay.relayStatus.Load() != kRelayHandshaking {
+						time.Sleep(50 * time.Microsecond)
+					}
+					for !s.stuck.Load() && relay.relayStatus.Load() == kRelayHandshaking && !relay.tunnelConnected.Load() {
+						time.Sleep(50 * time.Microsecond)
+					}
+					s.gate.Store(false)
+				}()
+				continue
+			}
+			if _, ok := x03Has(c, x03TRIG); ok {
+				s.feedIn("s", c)
+				continue
+			}
+			if _, ok := x03Has(c, x03CFG, x03BADCFG); ok {
+				if !s.wait("ACT at the server (in-band)", func() bool { return s.toS.has(x03T(x03ACT, r)) }) {
+					return
+				}
+				s.jitter()
+				s.feedIn("s", c)
+				continue
+			}
+			if _, ok := x03Has(c, x03END); ok {
+				if !waitFlush() || !s.wait("transferring", func() bool { return relay.relayStatus.Load() == kRelayTransferring }) {
+					return
+				}
+				s.jitter()
+				s.feedIn("s", c)
+				continue
+			}
+			s.jitter()
+			s.feedNoise("s", c)
+		}
+	}()
+	// ---- in-band client side
+	wg.Add(1)
+	go func() {
+		defer wg.Done()
+		for _, c := range rd.Cli {
+			if _, ok := x03Has(c, x03ACT, x03BADACT); ok {
+				if !s.wait("trigger at the client", func() bool {
+					return s.toC.has(x03T(x03TRIG, r)) || s.toC.has(x03T(x03TRIGT, r))
+				}) {
+					return
+				}
+				s.jitter()
+				s.feedIn("c", c)
+				continue
+			}
+			if _, ok := x03Has(c, x03END); ok {
+				if !s.wait("CFG at the client (in-band)", func() bool { return s.toC.has(x03T(x03CFG, r)) }) || !waitFlush() {
+					return
+				}
+				s.jitter()
+				s.feedIn("c", c)
+				continue
+			}
+			s.jitter()
+			s.feedNoise("c", c)
+		}
+	}()
+	// ---- tunnel
+	var adopted *x03Pair
+	var tun *tunnelRelay
+	var second *x03Pair
+	var holdLate chan struct{}
+	if tunnel {
+		if !s.wait("trigger with the relay's port at the client", func() bool { return s.toC.has(x03T(x03TRIGT, r)) && s.port(r) != 0 }) {
+			wg.Wait()
+			return false
+		}
+		hold1 := make(chan struct{})
+		p1 := s.dial(r, hold1, true)
+		if p1.conn == nil {
+			s.fail("first dial refused")
+			wg.Wait()
+			return false
+		}
+		switch rd.Second {
+		case "race", "late":
+			// the second client dials once the first handler waits for the server's greeting: the n-th
+			// connector call belongs to the n-th dial; both handlers then run towards the CAS together
+			if !s.wait("hello2 of pair 1", func() bool { return p1.sc.greeted.Load() }) {
+				wg.Wait()
+				return false
+			}
+			hold2 := make(chan struct{})
+			second = s.dial(r, hold2, true)
+			if second.conn != nil {
+				s.wait("hello2 of pair 2", func() bool { return second.sc.greeted.Load() || x03Closed(second.gone) })
+			}
+			if rd.Second == "late" {
+				holdLate = hold2
+				close(hold1)
+			} else if s.rnd(2) == 0 {
+				close(hold1)
+				s.jitter()
+				close(hold2)
+			} else {
+				close(hold2)
+				s.jitter()
+				close(hold1)
+			}
+		default:
+			close(hold1)
+		}
+		if !s.wait("a tunnel relay is adopted", func() bool { return relay.tunnelRelay.Load() != nil }) {
+			wg.Wait()
+			return false
+		}
+		tun = relay.tunnelRelay.Load()
+		adopted = p1
+		if second != nil && tun != nil && tun.serverConn == net.Conn(second.sc) {
+			adopted = second
+		}
+		if !s.wait("hello4", func() bool { return x03Closed(adopted.hello4) }) {
+			wg.Wait()
+			return false
+		}
+		if rd.Second == "race" && second != nil && second.conn != nil {
+			// environment assumption ~LateOK: the pair that lost is resolved (closed by the relay on both sides) before the
+			// transfer goes on; a handler still on its way to the CAS when a short transfer ends is the `late` scenario
+			loser := second
+			if adopted == second {
+				loser = p1
+			}
+			deadline := time.Now().Add(20 * time.Second)
+			for time.Now().Before(deadline) && !(x03Closed(loser.gone) && loser.sc.relayClosed()) {
+				time.Sleep(100 * time.Microsecond)
+			}
+			if adopted == second {
+				second = p1
+			}
+		}
+		if rd.Second == "after" {
+			second = s.dial(r, make(chan struct{}), false)
+		}
+		// the client's tunnel writes
+		wg.Add(1)
+		go func() {
+			defer wg.Done()
+			for _, c := range rd.CT {
+				if _, ok := x03Has(c, x03END); ok {
+					if !s.wait("CFG at the client (tunnel)", func() bool { return adopted.tok.has(x03T(x03CFG, r)) }) || !waitFlush() {
+						return
+					}
+				}
+				s.jitter()
+				b := s.render(c)
+				s.ev(map[string]any{"e": "twrite", "pr": adopted.pr, "u": c}, func() { _, _ = adopted.conn.Write(b) })
+			}
+		}()
+		// the server's tunnel writes
+		wg.Add(1)
+		go func() {
+			defer wg.Done()
+			for _, c := range rd.ST {
+				if _, ok := x03Has(c, x03CFG, x03BADCFG); ok {
+					if !s.wait("ACT at the server (tunnel)", func() bool { return adopted.sc.tok.has(x03T(x03ACTT, r)) }) {
+						return
+					}
+				}
+				if _, ok := x03Has(c, x03END); ok {
+					if !waitFlush() || !s.wait("transferring", func() bool { return relay.relayStatus.Load() == kRelayTransferring }) {
+						return
+					}
+				}
+				s.jitter()
+				select {
+				case adopted.sc.rd <- x03Chunk{s.render(c), c}:
+				case <-adopted.sc.closeCh:
+					return
+				case <-time.After(20 * time.Second):
+					s.fail("server tunnel chunk not taken")
+					return
+				}
+			}
+		}()
+	}
+	var probe *x03Pair
+	if rd.Probe {
+		// the client dials the port of this trigger once and watches what happens to the connection
+		wg.Add(1)
+		go func() {
+			defer wg.Done()
+			if s.wait("trigger with a port (probe)", func() bool { return s.toC.has(x03T(x03TRIGT, r)) && s.port(r) != 0 }) {
+				probe = s.dial(r, make(chan struct{}), false)
+			}
+		}()
+	}
+	if s.plan.Window && tunnel {
+		// an in-band client chunk arrives exactly between recvAction's return and tunnelConnected.Store
+		wg.Add(1)
+		go func() {
+			defer wg.Done()
+			select {
+			case <-s.winGo:
+			case <-time.After(20 * time.Second):
+				s.fail("window hook not reached")
+				return
+			}
+			s.feedIn("c", []int{127 + 100 + r}) // a payload byte of its own
+			time.Sleep(3 * time.Millisecond)  // let the pump park it (it blocks on nothing: the worker holds no lock here)
+			close(s.winBack)
+		}()
+	}
+	done := make(chan struct{})
+	go func() { wg.Wait(); close(done) }()
+	select {
+	case <-done:
+	case <-time.After(60 * time.Second):
+		return s.fail(fmt.Sprintf("round %d: feeders", r))
+	}
+	if s.stuck.Load() {
+		return false
+	}
+	// ---- the end of the round: the handshake worker has finished; a confirmed transfer has seen its end marker
+	if !waitFlush() {
+		return false
+	}
+	confirmedOK := rd.Confirm && !rd.BadCfg
+	if confirmedOK {
+		end := x03T(x03END, r)
+		if !s.wait(fmt.Sprintf("round %d: end marker delivered", r), func() bool {
+			if tunnel {
+				return adopted.sc.tok.has(end) || adopted.tok.has(end)
+			}
+			return s.toS.has(end) || s.toC.has(end)
+		}) {
+			return false
+		}
+		s.wait("standby", func() bool { return relay.relayStatus.Load() == kRelayStandBy })
+	}
+	for i := 0; i < 500 && !s.atRest(); i++ { // the clears follow the CAS within microseconds; do not insist
+		time.Sleep(100 * time.Microsecond)
+	}
+	if holdLate != nil {
+		// the server's greeting for the second pair arrives only now: its handler runs into the CAS after the reset
+		close(holdLate)
+		deadline := time.Now().Add(2 * time.Second)
+		for time.Now().Before(deadline) && !x03Closed(second.hello4) && !x03Closed(second.gone) {
+			time.Sleep(200 * time.Microsecond)
+		}
+		time.Sleep(5 * time.Millisecond)
+	}
+	s.settle([]*tunnelRelay{tun})
+	s.ev(map[string]any{"e": "quiet", "round": r}, nil)
+	if tunnel {
+		s.closePair(adopted, tun)
+	}
+	if holdLate != nil {
+		s.late = second // adopted after the reset: dealt with at the end of the session
+		second = nil
+	}
+	if probe != nil {
+		second = probe
+	}
+	for _, p := range []*x03Pair{second} {
+		if p != nil && p.conn != nil && p != adopted {
+			// a connection that lost (or was refused) must have been closed by the relay
+			deadline := time.Now().Add(5 * time.Second)
+			for time.Now().Before(deadline) && !x03Closed(p.gone) {
+				time.Sleep(200 * time.Microsecond)
+			}
+			p.self.Store(true)
+			_ = p.conn.Close()
+		}
+	}
+	return !s.stuck.Load()
+}
+
+// closePair: the ends close their tunnel connections after the transfer; what the relay does with its
+// four goroutines and two connections is observed (events rclosed, pumps) and measured (census)
+func (s *x03Sess) closePair(p *x03Pair, tun *tunnelRelay) {
+	before := x03TakeCensus()
+	cliClose := func() {
+		s.ev(map[string]any{"e": "tclose", "pr": p.pr, "who": "c"}, func() { _ = p.conn.CloseWrite() })
+	}
+	srvClose := func() {
+		s.ev(map[string]any{"e": "tclose", "pr": p.pr, "who": "s"}, func() { p.sc.peerClose() })
+	}
+	waitFor := func(cond func() bool, d time.Duration) bool {
+		deadline := time.Now().Add(d)
+		for !cond() {
+			if time.Now().After(deadline) {
+				return false
+			}
+			time.Sleep(200 * time.Microsecond)
+		}
+		return true
+	}
+	bound := time.Duration(s.plan.CloseWaitMs) * time.Millisecond
+	if bound == 0 {
+		bound = 3 * time.Second
+	}
+	switch s.plan.Close {
+	case "srv":
+		srvClose()
+		waitFor(func() bool { return x03Closed(p.gone) }, bound)
+		cliClose()
+		waitFor(p.sc.relayClosed, bound)
+	case "both":
+		if s.rnd(2) == 0 {
+			cliClose()
+			srvClose()
+		} else {
+			srvClose()
+			cliClose()
+		}
+		waitFor(func() bool { return x03Closed(p.gone) && p.sc.relayClosed() }, bound)
+	default:
+		cliClose()
+		waitFor(p.sc.relayClosed, bound)
+		srvClose()
+		waitFor(func() bool { return x03Closed(p.gone) }, bound)
+	}
+	// classify the pair's four goroutines: all of them were alive in `before`; nothing else changes meanwhile
+	var c1, c2 x03Census
+	for i := 0; i < 40; i++ {
+		c1 = x03TakeCensus()
+		if c1.TI < before.TI && c1.TO < before.TO && c1.WrS < before.WrS && c1.WrC < before.WrC {
+			break
+		}
+		time.Sleep(5 * time.Millisecond)
+	}
+	time.Sleep(10 * time.Millisecond)
+	c2 = x03TakeCensus()
+	cls := func(n2, busy1, busy2, sleep2, n0, busy0, sleep0 int) string {
+		switch {
+		case n2 < n0:
+			return "ended"
+		case busy1 > busy0 && busy2 > busy0:
+			return "spin"
+		case sleep2 > sleep0:
+			return "eofwait"
+		default:
+			return "read"
+		}
+	}
+	ti := cls(c2.TI, c1.TIBusy, c2.TIBusy, c2.TISleep, before.TI, before.TIBusy, before.TISleep)
+	to := cls(c2.TO, c1.TOBusy, c2.TOBusy, c2.TOSleep, before.TO, before.TOBusy, before.TOSleep)
+	alive := func(n, n0 int) string {
+		if n < n0 {
+			return "ended"
+		}
+		return "alive"
+	}
+	ev := map[string]any{"e": "pumps", "pr": p.pr, "ti": ti, "to": to, "wrs": alive(c2.WrS, before.WrS), "wrc": alive(c2.WrC, before.WrC)}
+	s.ev(ev, nil)
+	s.pmu.Lock()
+	s.census = append(s.census, map[string]any{"pr": p.pr, "ti": ti, "to": to, "wrs": ev["wrs"], "wrc": ev["wrc"],
+		"bad_reads_server_conn": p.sc.badRd.Load(), "client_gone_by": p.goneBy})
+	s.pmu.Unlock()
+	p.self.Store(true)
+	_ = p.conn.Close()
+}
+
+
+func x03RunSession(tr *vTrace, plan *x03Plan) (ok bool, info map[string]any) {
+	s := &x03Sess{id: plan.ID, tr: tr, plan: plan, rng: rand.New(rand.NewSource(plan.Seed)), ports: map[int]int{},
+		winGo: make(chan struct{}), winBack: make(chan struct{})}
+	s.base = ((time.Now().UnixMilli() + int64(plan.ID)*7919) % 1e10) * 1000 // 13 digits, ends in 000: + 100*round keeps the 00 suffix
+	confirm := make([]bool, len(plan.Rounds))
+	for i, r := range plan.Rounds {
+		confirm[i] = r.Confirm
+	}
+	s.ev(map[string]any{"e": "reset", "confirm": confirm, "srverr": plan.SrvErr}, nil)
+	s.winArm.Store(plan.Window)
+	verifHook = s.hook
+	defer func() { verifHook = nil }()
+	s.toS = &x03Tok{s: s, seen: map[int]bool{}, emit: func(t []int) { s.ev(map[string]any{"e": "deliver", "to": "s", "u": t}, nil) }}
+	s.toC = &x03Tok{s: s, seen: map[int]bool{}, emit: func(t []int) { s.ev(map[string]any{"e": "deliver", "to": "c", "u": t}, nil) }}
+	s.cin = &x03Reader{ch: make(chan x03Chunk)}
+	s.sout = &x03Reader{ch: make(chan x03Chunk)}
+	s.cin.onRead = func(u []int) { s.ev(map[string]any{"e": "feed", "side": "c", "u": u}, nil) }
+	s.sout.onRead = func(u []int) { s.ev(map[string]any{"e": "feed", "side": "s", "u": u}, nil) }
+	s.relay = NewTrzszRelay(s.cin, s.toC, s.toS, s.sout, TrzszOptions{})
+	s.relay.SetTunnelConnector(s.connector)
+	ok = true
+	for r := 1; r <= len(plan.Rounds); r++ {
+		if !s.runRound(r) {
+			ok = false
+			break
+		}
+	}
+	if ok && s.late != nil && s.late.conn != nil && x03Closed(s.late.hello4) {
+		s.closePair(s.late, nil)
+	}
+	if ok {
+		s.ev(map[string]any{"e": "final"}, nil)
+	} else {
+		at, _ := s.stuckAt.Load().(string)
+		s.ev(map[string]any{"e": "stuck", "at": at}, nil)
+	}
+	close(s.cin.ch)
+	close(s.sout.ch)
+	at, _ := s.stuckAt.Load().(string)
+	info = map[string]any{"id": plan.ID, "ok": ok, "stuck_at": at, "notes": s.notes, "census": s.census, "plan": plan}
+	return ok, info
+}
+
+// ---------------------------------------------------------------- plans and drivers
+
+func init() { vRegister("x03_relaytunnel", x03Drive) }
+
+type x03Gen struct {
+	r    *rand.Rand
+	next int
+}
+
+func (g *x03Gen) plain(n int) []int {
+	var t []int
+	for i := 0; i < n && g.next < 225; i++ {
+		t = append(t, g.next)
+		g.next++
+	}
+	return t
+}
+
+func (g *x03Gen) chunks(k, maxLen int) [][]int {
+	var res [][]int
+	for i := 0; i < k; i++ {
+		if c := g.plain(1 + g.r.Intn(maxLen)); len(c) > 0 {
+			res = append(res, c)
+		}
+	}
+	return res
+}
+
+func (g *x03Gen) with(tok, before, after int) []int {
+	c := g.plain(g.r.Intn(before + 1))
+	c = append(c, tok)
+	return append(c, g.plain(g.r.Intn(after+1))...)
+}
+
+func (g *x03Gen) round(r int, kind string, light bool) x03Round {
+	rd := x03Round{Kind: kind, Confirm: g.r.Intn(6) != 0, EndBy: "cli", EndText: []string{"#EXIT:", "#EXIT:", "#FAIL:", "#fail:"}[g.r.Intn(4)]}
+	if rd.Confirm && g.r.Intn(7) == 0 {
+		rd.BadCfg = true
+	}
+	if g.r.Intn(3) == 0 {
+		rd.EndBy = "srv"
+	}
+	k := 3
+	if light {
+		k = 1
+	}
+	ok := rd.Confirm && !rd.BadCfg
+	if kind == "tunnel" {
+		switch g.r.Intn(10) {
+		case 0, 1, 2:
+			rd.Second = "race"
+		case 3:
+			rd.Second = "after"
+		}
+		rd.Srv = append(rd.Srv, g.chunks(g.r.Intn(2), 2)...)
+		rd.Srv = append(rd.Srv, g.with(x03T(x03TRIGT, r), 2, 2))
+		rd.Srv = append(rd.Srv, g.chunks(g.r.Intn(k), 2)...)
+		rd.Cli = append(rd.Cli, g.chunks(g.r.Intn(k+1), 2)...)
+		rd.CT = append(rd.CT, g.with(x03T(x03ACTT, r), 0, 2))
+		rd.CT = append(rd.CT, g.chunks(g.r.Intn(k+1), 3)...)
+		if rd.Confirm {
+			cfg := x03CFG
+			if rd.BadCfg {
+				cfg = x03BADCFG
+			}
+			rd.ST = append(rd.ST, g.with(x03T(cfg, r), 0, 2))
+		}
+		rd.ST = append(rd.ST, g.chunks(g.r.Intn(k+1), 3)...)
+		if ok && rd.EndBy == "cli" {
+			rd.CT = append(rd.CT, g.with(x03T(x03END, r), 2, 0))
+			rd.CT = append(rd.CT, g.chunks(g.r.Intn(2), 2)...)
+		} else if ok {
+			rd.ST = append(rd.ST, g.with(x03T(x03END, r), 2, 0))
+			rd.ST = append(rd.ST, g.chunks(g.r.Intn(2), 2)...)
+		}
+		return rd
+	}
+	rd.Port = g.r.Intn(2) == 0
+	trig := x03TRIG
+	if rd.Port {
+		trig = x03TRIGT
+	}
+	rd.Srv = append(rd.Srv, g.chunks(g.r.Intn(2), 2)...)
+	rd.Srv = append(rd.Srv, g.with(x03T(trig, r), 2, 2))
+	rd.Srv = append(rd.Srv, g.chunks(g.r.Intn(k), 2)...)
+	rd.Cli = append(rd.Cli, g.chunks(g.r.Intn(k), 2)...)
+	rd.Cli = append(rd.Cli, g.with(x03T(x03ACT, r), 2, 2))
+	rd.Cli = append(rd.Cli, g.chunks(g.r.Intn(k), 2)...)
+	if rd.Confirm {
+		cfg := x03CFG
+		if rd.BadCfg {
+			cfg = x03BADCFG
+		}
+		rd.Srv = append(rd.Srv, g.with(x03T(cfg, r), 2, 2))
+		rd.Srv = append(rd.Srv, g.chunks(g.r.Intn(k), 2)...)
+	}
+	if ok && rd.EndBy == "cli" {
+		rd.Cli = append(rd.Cli, g.with(x03T(x03END, r), 2, 0))
+	} else if ok {
+		rd.Srv = append(rd.Srv, g.with(x03T(x03END, r), 2, 0))
+	}
+	return rd
+}
+
+func x03GenPlan(id int, seed int64, mode string) *x03Plan {
+	g := &x03Gen{r: rand.New(rand.NewSource(seed*7919 + int64(id))), next: 128}
+	p := &x03Plan{ID: id, Seed: seed*104729 + int64(id), SrvErr: "eof", Close: "cli"}
+	switch mode {
+	case "window":
+		p.Window = true
+		rd := x03Round{Kind: "tunnel", Confirm: id%3 != 0, EndBy: "cli", EndText: "#EXIT:"}
+		rd.Srv = [][]int{g.with(x03T(x03TRIGT, 1), 1, 1)}
+		rd.CT = [][]int{g.with(x03T(x03ACTT, 1), 0, 2), g.plain(2)}
+		if rd.Confirm {
+			rd.ST = [][]int{g.with(x03T(x03CFG, 1), 0, 2)}
+			rd.CT = append(rd.CT, g.with(x03T(x03END, 1), 1, 0))
+		}
+		p.Rounds = []x03Round{rd}
+	case "late":
+		p.CloseWaitMs = 500
+		rd := g.round(1, "tunnel", true)
+		for !rd.Confirm || rd.BadCfg {
+			rd = g.round(1, "tunnel", true)
+		}
+		rd.Second = "late"
+		p.Rounds = []x03Round{rd}
+		if id%2 == 0 {
+			r2 := g.round(2, "inband", true)
+			for !r2.Confirm || r2.BadCfg {
+				r2 = g.round(2, "inband", true)
+			}
+			if !r2.Port { // the trigger of the second transfer carries a port
+				for i, c := range r2.Srv {
+					for j, t := range c {
+						if t == x03T(x03TRIG, 2) {
+							r2.Srv[i][j] = x03T(x03TRIGT, 2)
+						}
+					}
+				}
+				r2.Port = true
+			}
+			r2.Probe = true
+			p.Rounds = append(p.Rounds, r2)
+		}
+	case "pumps":
+		p.SrvErr = "closed"
+		p.CloseWaitMs = 400
+		p.Close = []string{"cli", "srv", "both"}[id%3]
+		rd := g.round(1, "tunnel", true)
+		rd.Second = ""
+		p.Rounds = []x03Round{rd}
+	default:
+		kinds := [][]string{{"tunnel"}, {"tunnel", "inband"}, {"tunnel", "inband", "tunnel"}, {"inband", "tunnel"}, {"tunnel", "tunnel"}, {"tunnel"}}[g.r.Intn(6)]
+		for i, k := range kinds {
+			p.Rounds = append(p.Rounds, g.round(i+1, k, len(kinds) > 1))
+		}
+	}
+	return p
+}
+
+func x03Drive(d *vCtx) error {
+	total := d.pInt("runs", 64)
+	shards := d.pInt("shards", 16)
+	mode := d.pStr("mode", "mix")
+	return vShards(d, shards, func(si, n int) error {
+		_ = os.Unsetenv("TMUX")
+		_ = os.Setenv("PATH", "/nonexistent") // resetToStandby runs `tmux refresh-client`
+		devnull, _ := os.OpenFile(os.DevNull, os.O_WRONLY, 0)
+		os.Stdout = devnull
+		tr, err := vNewTrace(d.path("trace.ndjson"))
+		if err != nil {
+			return err
+		}
+		var infos []map[string]any
+		var fixed []*x03Plan
+		if f := d.pStr("plans", ""); f != "" {
+			b, err := os.ReadFile(f)
+			if err != nil {
+				return err
+			}
+			if err := json.Unmarshal(b, &fixed); err != nil {
+				return err
+			}
+			total = len(fixed)
+		}
+		fd0 := x03OpenFDs()
+		for id := si; id < total; id += n {
+			var plan *x03Plan
+			if fixed != nil {
+				plan = fixed[id]
+			} else {
+				plan = x03GenPlan(id, d.seed, mode)
+			}
+			ok, info := x03RunSession(tr, plan)
+			infos = append(infos, info)
+			d.add("runs", 1)
+			d.add("rounds", len(plan.Rounds))
+			if !ok {
+				d.add("stuck", 1)
+				break // goroutines of the stuck relay may still fire hooks
+			}
+		}
+		if mode == "pumps" {
+			// what is left behind by the sessions of this process: goroutines, descriptors, CPU, allocation
+			c := x03TakeCensus()
+			var m0, m1 runtime.MemStats
+			runtime.ReadMemStats(&m0)
+			cpu0, t0 := x03CPU(), time.Now()
+			time.Sleep(300 * time.Millisecond)
+			cpu1, wall := x03CPU(), time.Since(t0)
+			runtime.ReadMemStats(&m1)
+			c2 := x03TakeCensus()
+			_ = vWriteJSON(d.path("leftover.json"), map[string]any{"sessions": len(infos), "ti_alive": c.TI, "to_alive": c.TO,
+				"ti_busy": c2.TIBusy, "to_busy": c2.TOBusy, "writers_alive": c.WrS + c.WrC, "goroutines": c.Total,
+				"fds_before": fd0, "fds_after": x03OpenFDs(), "cpu_ms": (cpu1 - cpu0).Milliseconds(), "wall_ms": wall.Milliseconds(),
+				"alloc_mb_per_s": float64(m1.TotalAlloc-m0.TotalAlloc) / 1e6 / wall.Seconds(), "gomaxprocs": runtime.GOMAXPROCS(0)})
+		}
+		if err := tr.Close(); err != nil {
+			return err
+		}
+		return vWriteJSON(d.path("infos.json"), infos)
+	})
+}
